@@ -1,11 +1,147 @@
-/- BDS 0,9 — crates/rs1090/src/decode/bds/bds09.rs   (STUB: not modelled yet) -/
+/-
+BDS 0,9 airborne velocity — crates/rs1090/src/decode/bds/bds09.rs
+
+`AirborneVelocity` is the payload of `ME::BDS09` (`#[deku(id = "19")]`: a plain id, so the reader
+continues right after the 5-bit type code; nothing is re-read).
+
+Layout (ME bits): 5 subtype(3) | 8 intent(1) | 9 ifr(1) | 10 NACv(3) | 13 velocity(22) |
+35 vrate_src(1) | 36 vrate_sign(1) | 37 vrate(9) | 46 reserved(2) | 48 gnss_sign(1) | 49 geo(7).
+
+The numeric conversions are small pure functions of the raw codes (`velComponent`, `vrate`,
+`geoBaro`, `headingNum`, `airspeedSub`, `airspeedSuper`) with Rust's overflow-checked `i16`/`u16`
+arithmetic; the bit reading (`read`) only sequences them.
+-/
 import Rs1090.Model.Decode.Common
 namespace Rs1090.Model.Bds09
 open Rs1090 Rs1090.Model
 
-/-- STUB -/
-def modelled : Bool := false
+def modelled : Bool := true
 
-def read : R SerFields := R.fail .other
+/-! ### Pure field conversions -/
+
+/-- `Sign::value()` : `Positive = 0 ↦ 1`, `Negative = 1 ↦ -1` (i16) -/
+def signValue (sign : Nat) : Int := if sign == 0 then 1 else -1
+
+/-- `(val as i16 - 1) * sign.value()` (i16, overflow-checked); `val` is a 10-bit code.
+    Code 0 ("no information") is *not* special-cased by the code: it yields `∓1`. -/
+def velComponent (sign val : Nat) : Outcome Int := do
+  let a ← subS 16 (val : Int) 1
+  mulS 16 a (signValue sign)
+
+/-- `vertical_rate`: `if v == 0 {None} else {Some(vrate_sign.value() * (v as i16 - 1) * 64)}` -/
+def vrate (sign v : Nat) : Outcome (Option Int) :=
+  if v == 0 then .ok none else do
+    let a ← subS 16 (v : Int) 1
+    let b ← mulS 16 (signValue sign) a
+    let c ← mulS 16 b 64
+    pure (some c)
+
+/-- `read_geobaro`: `if value > 1 { Some(±25 * (value as i16 - 1)) } else { None }` -/
+def geoBaro (sign value : Nat) : Outcome (Option Int) :=
+  if value > 1 then do
+    let a ← subS 16 (value : Int) 1
+    let b ← mulS 16 (if sign == 0 then 25 else -25) a
+    pure (some b)
+  else .ok none
+
+/-- numerator of the heading `val * 360 / 1024` (degrees); exact both as `f64` (subtype 3) and as
+    `f32` (subtype 4: `val as f32 * 360.` ≤ 368280 < 2^24 is exact, the division by 2^10 is exact) -/
+def headingNum (val : Nat) : Nat := val * 360
+def headingDen : Nat := 1024
+
+/-- subtype 3: `if value == 0 {None} else {Some(value - 1)}` (u16) -/
+def airspeedSub (value : Nat) : Outcome (Option Nat) :=
+  if value == 0 then .ok none else do
+    let a ← subU value 1
+    pure (some a)
+
+/-- subtype 4: `if value == 0 {None} else {Some(4 * (value - 1))}` (u16) -/
+def airspeedSuper (value : Nat) : Outcome (Option Nat) :=
+  if value == 0 then .ok none else do
+    let a ← subU value 1
+    let b ← mulU 16 4 a
+    pure (some b)
+
+/-- `GroundSpeedDecoding.groundspeed = libm::hypot(|ew|, |ns|)` -/
+def groundspeedJ (ew ns : Int) : Json := .hypot (Int.ofNat ew.natAbs) (Int.ofNat ns.natAbs)
+
+/-- `GroundSpeedDecoding.track`: `atan2(ew, ns)` in degrees, `+360` when negative -/
+def trackJ (ew ns : Int) : Json := .atan2deg ew ns
+
+/-! ### Serialised sub-structures -/
+
+/-- serde name of `VerticalRateSource` -/
+def vrateSrcName (v : Nat) : Key := if v == 0 then key! "barometric" else key! "GNSS"
+
+/-- the hand-written `Serialize` of `AirspeedSubsonicDecoding` / `AirspeedSupersonicDecoding`:
+    `heading` only when `Some`, then `IAS` or `TAS` (by `airspeed_type`) only when the speed is `Some` -/
+def airspeedFields (heading : Option Json) (asType : Nat) (speed : Option Nat) : Fields :=
+  [ skipNone (key! "heading") heading,
+    (if asType == 0 then skipNone (key! "IAS") (speed.map jnat)
+     else skipNone (key! "TAS") (speed.map jnat)) ]
+
+/-- `GroundSpeedDecoding` (subtypes 1 and 2 — the ×4 of subtype 2 is not applied by the code) -/
+def readGroundSpeed : R Fields := do
+  let ewSign ← enumId 1
+  let ewRaw ← bits 10
+  let ew ← R.lift (velComponent ewSign ewRaw)
+  let nsSign ← enumId 1
+  let nsRaw ← bits 10
+  let ns ← R.lift (velComponent nsSign nsRaw)
+  pure [ fld (key! "groundspeed") (groundspeedJ ew ns), fld (key! "track") (trackJ ew ns) ]
+
+/-- `AirspeedSubsonicDecoding` (subtype 3) -/
+def readAirspeedSub : R Fields := do
+  let status ← flag
+  let hdg ← bits 10
+  let asType ← enumId 1
+  let raw ← bits 10
+  let speed ← R.lift (airspeedSub raw)
+  pure (airspeedFields (if status then some (jrat (headingNum hdg) headingDen) else none) asType speed)
+
+/-- `AirspeedSupersonicDecoding` (subtype 4; heading is an `f32`) -/
+def readAirspeedSuper : R Fields := do
+  let status ← flag
+  let hdg ← bits 10
+  let asType ← enumId 1
+  let raw ← bits 10
+  let speed ← R.lift (airspeedSuper raw)
+  pure (airspeedFields (if status then some (jrat (headingNum hdg) headingDen) else none) asType speed)
+
+/-- `AirborneVelocitySubType` (`ctx = "subtype: u8", id = "subtype"`): the discriminant is the
+    context value, nothing is read for it (`last_bits_read_amt` is still reset), and because the
+    enum has a top-level `id` the `id_pat` variants do **not** `seek_last_read`.
+    Reserved subtypes 0 and 5..=7 hold a 22-bit `u32` (native = little endian, value unused) and
+    serialise through `serialize_reserved` as an empty map. -/
+def readVelocity (subtype : Nat) : R Fields := do
+  let _ ← enumId 0
+  if subtype == 0 then do
+    let _ ← bitsLE 22; pure []
+  else if subtype == 1 || subtype == 2 then readGroundSpeed
+  else if subtype == 3 then readAirspeedSub
+  else if subtype == 4 then readAirspeedSuper
+  else do
+    let _ ← bitsLE 22; pure []
+
+/-- `AirborneVelocity`, starting right after the 5-bit type code -/
+def read : R SerFields := do
+  let subtype ← bits 3
+  let _intent ← flag
+  let _ifr ← flag
+  let nacv ← bits 3
+  let vel ← readVelocity subtype
+  let src ← enumId 1
+  let vsign ← enumId 1
+  let vraw ← bits 9
+  let vr ← R.lift (vrate vsign vraw)
+  let _reserved ← bits 2
+  let gsign ← enumId 1
+  let graw ← bits 7
+  let gb ← R.lift (geoBaro gsign graw)
+  pure <| .ok (
+    [ fld (key! "NACv") (jnat nacv) ] ++ vel ++
+    [ fld (key! "vrate_src") (.lit (vrateSrcName src)),
+      skipNone (key! "vertical_rate") (vr.map jint),
+      fldOpt (key! "geo_minus_baro") (gb.map jint) ])
 
 end Rs1090.Model.Bds09
